@@ -321,6 +321,10 @@ def data_stream_sites(p):
             v = st.value
             if isinstance(v, ast.Call) and last_attr(v.func) in ("ThrottleStreamIO", "StreamIO"):
                 out.append((verb, h, st, v, "direct"))
+            elif isinstance(v, ast.Call) and ((isinstance(v.func, ast.Attribute) and v.func.attr == "__class__" and last_attr(v.func.value) == "command_connection")
+                                              or (isinstance(v.func, ast.Call) and isinstance(v.func.func, ast.Name) and v.func.func.id == "type" and v.func.args
+                                                  and last_attr(v.func.args[0]) == "command_connection")):
+                out.append((verb, h, st, v, "direct"))   # a sibling of the control stream, constructed in place
             elif isinstance(v, ast.Call) and isinstance(v.func, ast.Attribute) and last_attr(v.func.value) == "command_connection":
                 helper = None
                 for cls in ("ThrottleStreamIO", "StreamIO"):
